@@ -2,7 +2,8 @@
    Only statements, [exact] and [Print Assumptions] live here. *)
 From Coq Require Import List Arith Bool NArith.
 From GV Require Import Base.Result Gen.TokenTypes Gen.Defs Model.Parser Model.BuilderWL Spec.TreeShape
-  Proofs.C03.Bounded Proofs.C03.Bounded4 Proofs.C04.Bounded Proofs.C04.Shape Proofs.C04.Validated.
+  Spec.TokenAccount
+  Proofs.C03.Bounded Proofs.C03.Bounded4 Proofs.C04.Bounded Proofs.C04.Shape Proofs.C04.Validated Proofs.C04.Tokens Proofs.C04.TokensTree.
 Import ListNotations.
 
 (* UNBOUNDED, for every token list: whenever parse accepts, the node links it returns
@@ -22,6 +23,60 @@ Theorem C04_no_shared_child : forall ns root, well_linked ns root ->
   forall i j c, marked v i -> marked v j -> child ns i c -> child ns j c -> i = j.
 Proof. exact no_shared_child. Qed.
 Print Assumptions C04_no_shared_child.
+
+(* UNBOUNDED, for every token list: the node array of an accepted parse accounts for the
+   tokens.  [accounted 0 toks None ls] says that the labels (definition, class, token index)
+   of the nodes are, token by token and in token order: optionally the implicit space-list
+   node, then either nothing - only for a token whose table definition is Drop (closing
+   brackets, whitespace, annotations) or a separator, which may be dropped - or exactly one
+   node carrying the token's index, its class and its table definition (an identifier after
+   `.` is stored as Property).  Proof: no step of the main loop ever changes the label of an
+   existing node; it only re-links nodes and appends. *)
+Theorem C04_tokens_accounted : forall (toks : list token_type) root ns,
+  parse toks = Ok (root, ns) -> accounted 0 (snd (trim_tokens toks)) None (labels ns).
+Proof. exact parse_tokens_accounted. Qed.
+Print Assumptions C04_tokens_accounted.
+
+(* what [accounted] gives: the token indices of the nodes increase strictly with the node
+   index (every token at most once, in order), every node that is not the implicit list
+   belongs to a token and carries its definition, and every token that must have a node has one *)
+Theorem C04_accounted_in_order : forall toks i lt added, accounted i toks lt added ->
+  increasing (real_toks added) /\
+  (forall l, In l added -> is_implicit l = false ->
+     exists k t, nth_error toks (k - i) = Some t /\ i <= k /\ label_matches t k l) /\
+  (forall j t, nth_error toks j = Some t -> never_a_node t = false -> maybe_dropped t = false ->
+     exists l, In l added /\ label_matches t (i + j) l).
+Proof.
+  intros toks i lt added H. split; [exact (accounted_increasing _ _ _ _ H)|].
+  split; [exact (accounted_sound _ _ _ _ H) | exact (accounted_complete _ _ _ _ H)].
+Qed.
+Print Assumptions C04_accounted_in_order.
+
+(* ... and the node of every such token is part of the validated tree (both unbounded halves
+   together): for every accepted program there is a marking containing the root, closed under
+   children with agreeing parent links, that contains the node of every token which is neither
+   Drop-defined nor a separator *)
+Theorem C04_every_token_in_the_tree : forall (toks : list token_type) root ns,
+  parse toks = Ok (root, ns) -> ns <> [] ->
+  exists v : list bool,
+    marked v root /\ (forall i, marked v i -> children_ok ns v i) /\
+    forall k t, nth_error (snd (trim_tokens toks)) k = Some t ->
+      never_a_node t = false -> maybe_dropped t = false ->
+      exists j n, nth_error ns j = Some n /\ marked v j /\ label_matches t k (label_of n).
+Proof. exact parse_tokens_in_tree. Qed.
+Print Assumptions C04_every_token_in_the_tree.
+
+(* non-vacuity: a program with an implicit list, a group, a property access and whitespace is
+   accepted; its real token indices are 0 2 4 5 6 7 9 (whitespace 1 3, `)` 8 have no node) *)
+Example C04_tokens_ex :
+  match parse [TT_Number; TT_Whitespace; TT_Identifier; TT_Whitespace; TT_StartGroup; TT_Identifier; TT_Period;
+               TT_Identifier; TT_EndGroup; TT_PlusSign; TT_Number] with
+  | Ok (_, ns) => real_toks (labels ns) = [0; 2; 4; 5; 6; 7; 9; 10] /\
+                  existsb is_implicit (labels ns) = true /\
+                  existsb (fun l => definition_eqb (fst (fst l)) D_Property) (labels ns) = true
+  | _ => False
+  end.
+Proof. vm_compute. repeat split; reflexivity. Qed.
 
 (* what the boolean checker establishes, as Props: the root has no parent, the
    in-order walk from the root visits no node twice, child and parent links agree at
